@@ -1,4 +1,5 @@
 import PistacheModel.Model.Headers
+import PistacheModel.Model.Date
 import Driver.Util
 import Driver.Mime
 open Pistache Pistache.Headers
@@ -48,7 +49,9 @@ def hdrParseCanon (name : String) (v : List Nat) : Option (Except HErr (String Ã
   else if name == "Accept" then some (match parseAccept v with
     | .ok ms => .ok (s!"acc {ms.length}" ++ String.join (ms.map fun m => " [" ++ mediaCanon m ++ "]"), [])
     | .error e => .error e)
-  else if name == "Date" then some (.error .unspec)
+  else if name == "Date" then some (match Date.parseCanon v with
+    | some t => .ok (s!"date {t}", Date.write t)       -- the canonical form; RFC 850 / asctime / other zone names are outside the model
+    | none => .error .unspec)
   else if name == "Allow" then some (.ok ("allow", []))
   else none
 
@@ -88,6 +91,9 @@ def hdrBuild (name : String) (args : List String) : Option (List Nat Ã— String) 
     let ts â† if a == "-" then some [] else (a.splitOn ",").mapM fromHex
     pure (writeServer ts, dumpToks ts)
   | "Expect", [a] => some (writeExpect (a == "1"), s!"exp {if a == "1" then 1 else 0}")
+  | "Date", [a] => do
+    let t â† a.toNat?
+    if t < 9223372036 then pure (Date.write t, s!"date {t}") else none     -- what a nanosecond system_clock::time_point can hold (the theorem covers all four-digit years)
   | "Content-Type", [a] => do
     let v â† fromHex a
     if v.head? == some 64 then
@@ -114,7 +120,6 @@ def headersOp : List String â†’ Option String
     | some (.error e) => pure (errCls e)
     | some (.ok (dump, w)) => pure s!"ok {dump} | w={toHex w}"
   | "hdrw" :: name :: args =>
-    if name == "Date" then some "unspecified" else
     match hdrBuild name args with
     | none => some "unspecified"
     | some (w1, orig) =>
